@@ -21,6 +21,7 @@ BOUND = ("dimension 1..4; two start data sets per case with 0..20 samples each (
          "(start sets and sets produced by earlier operations); plus 15 directed sequences per dimension; a third of the random cases are 'scaling-focused' (only scalings/shifts/factors/reverts/permutations/copies on one set, closed by revert_scaling). Scaling operations are not "
          "applied to empty sets and revert_scaling only to scaled sets (outside the property); exceptions of sample-moving operations "
          "with an EMPTY operand are tolerated if nothing is modified")
+BOUND += "; fault / magnitude additions: three directed sequences with scaling factors 1e-9 / 1e9"
 RULE = BOUND + ("; one case = (two start sets, operation list with all parameters and the numpy seed for shuffle); non-trivial = at least "
                 "one start set is non-empty and the list is non-empty")
 CLAUSES = {
